@@ -179,7 +179,9 @@ def judge_response(ctx, fns, spec, arrays, ds, err, little, sizes, where):
             with warnings.catch_warnings():
                 warnings.simplefilter("ignore")
                 # pydap addresses a variable by its stored name (`.` quoted as %2E)
-                var = ds[R.fqn(path, G.dap_quote(v["name"]))] if path else ds[G.dap_quote(v["name"])]
+                var = ds[G.dap_quote(fq)] if path else ds[G.dap_quote(v["name"])]
+                if var is not (ds[fq] if path else ds[v["name"]]):
+                    raise KeyError("declared spelling finds something else")
             data = np.asarray(var.data)
         except Exception as e:
             ctx.oracle_fail("declared variable missing from the decoded dataset", dict(case, var=fq), err_class(e), fq,
@@ -249,7 +251,7 @@ def check_responses(ctx, fns, n, label, big=False, **kw):
                                 spy.seen, doc_order, size=len(doc_order))
             if little:
                 x0 = G.xnode_sexp(G.et_of_dmr(text))
-                order_cases.append(("dmr-order " + x0, "(ok" + "".join(" " + G.hexs(k) for k in spy.seen) + ")"
+                order_cases.append(("dmr-order " + x0, "(ok" + "".join(" " + G.hexs(k) for k in spy_seen_quoted) + ")"
                                     if ds is not None else "(err %s)" % err, {"spec": spec}))
                 for t in G.layout_tags(spec):
                     ctx.tags[label + ":" + t] += 1
@@ -266,11 +268,11 @@ def check_responses(ctx, fns, n, label, big=False, **kw):
                     var = by_key.get(qkey)
                     key = G.dap_unquote(qkey)
                     if var is None:
-                        impl += " (%s missing)" % G.hexs(key)
+                        impl += " (%s missing)" % G.hexs(qkey)
                         continue
                     ck = var.attributes.get("checksum")
                     ck = "none" if ck is None or len(ck) == 0 else str(int(ck[0]))
-                    impl += " (%s (%s %s))" % (G.hexs(key), G.be_hex(var.data), ck)
+                    impl += " (%s (%s %s))" % (G.hexs(qkey), G.be_hex(var.data), ck)
                 impl += ")"
             x = G.xnode_sexp(G.et_of_dmr(text))
             cases.append(("dap4-response %s %s" % (x, hexb(resp)), impl, {"spec": spec, "little": little}))
@@ -412,7 +414,9 @@ def explore(ctx, fns, tier):
     check_dechunk(ctx, fns, 1500 * k)
     check_responses(ctx, fns, 150 * k, "flat", groups=False)
     check_responses(ctx, fns, 300 * k, "groups")
-    check_responses(ctx, fns, 50 * k, "quoted-names", var_names=G.NAMES[:4] + G.QUOTED_NAMES)
+    # names that DAP quoting changes (ASCII only: the DMR chunk of a response is decoded as ASCII)
+    check_responses(ctx, fns, 60 * k, "quoted-names", var_names=G.NAMES[:3] + G.QUOTED_NAMES + G.QUOTED_ASCII,
+                    group_names=G.GROUP_NAMES[:2] + G.QUOTED_GROUPS[:3], dim_names=G.NAMES[:3] + G.QUOTED_DIMS)
     check_responses(ctx, fns, 1 if tier == "quick" else 6, "big", big=True)
     check_dechunk_big(ctx, fns, 1 if tier == "quick" else 6)
     check_index(ctx, fns, 250 * k)
